@@ -7,7 +7,7 @@
 (* script is printed for replay against the real writers.                           *)
 EXTENDS WinconAnsi, TLC, Json
 CONSTANT AllData
-Datas == IF AllData THEN << <<>>, <<97>>, <<97, 98, 10>>, <<195, 169, 226, 130, 172>>, <<32, 9, 120>> >> ELSE << <<97, 98, 10>>, <<195, 169>>, <<>> >>
+Datas == IF AllData THEN << <<>>, <<97>>, <<97, 98, 10>>, <<195, 169, 226, 130, 172>>, <<32, 9, 120>>, <<32, 10>>, <<9>> >> ELSE << <<97, 98, 10>>, <<195, 169>>, <<>>, <<32, 10>> >>
 Kinds == {"eI", "eW", "eO"}
 FgCode(k) == IF k = 16 THEN <<>> ELSE <<27, 91>> \o (IF k < 8 THEN <<51, 48 + k>> ELSE <<57, 48 + k - 8>>) \o <<109>>
 BgCode(k) == IF k = 16 THEN <<>> ELSE <<27, 91>> \o (IF k < 8 THEN <<52, 48 + k>> ELSE <<49, 48, 48 + k - 8>>) \o <<109>>
